@@ -191,6 +191,23 @@ func decryptPayload(keys [][]byte, msg []byte, data []byte) ([]byte, error) {
 		if err == nil {
 			// Remove the PKCS7 padding for vsn 0
 			if vsn == 0 {
+				// The version byte is not covered by the authentication
+				// tag, so a message that was sealed without padding can
+				// arrive here: validate the padding before stripping it
+				// rather than slicing with whatever the last byte says.
+				n := len(plain)
+				if n == 0 || n%aes.BlockSize != 0 {
+					return nil, fmt.Errorf("invalid padding: plaintext length %d", n)
+				}
+				pad := int(plain[n-1])
+				if pad < 1 || pad > aes.BlockSize || pad > n {
+					return nil, fmt.Errorf("invalid padding length %d", pad)
+				}
+				for _, b := range plain[n-pad:] {
+					if int(b) != pad {
+						return nil, fmt.Errorf("invalid padding bytes")
+					}
+				}
 				return pkcs7decode(plain, aes.BlockSize), nil
 			} else {
 				return plain, nil
